@@ -28,6 +28,21 @@ CLAIMED = {
             "text": "Same enumeration as C01; returned value == exact weight of emitted cycles == weight of the reference minimum basis, and "
                     "sorted weight vectors agree, on every input of the bound.",
             "note": _EXACT_NOTE},
+    "C05": {"level": "exploration", "design_ref": "DESIGN.md section 3, C05",
+            "technique": "bounded exhaustive input-space enumeration (graphs x weightings x k x variants) of the real code with a structural validator",
+            "text": "Every graph of the bound x weighting x k x approximate variant; emitted cycles are validated against the caller's own edge "
+                    "descriptors after the call returned, count/independence are checked and the returned value is compared with the caller-map weight.",
+            "note": _EXACT_NOTE},
+    "C06": {"level": "exploration", "design_ref": "DESIGN.md section 3, C06",
+            "technique": "bounded exhaustive input-space enumeration against an independent optimum (all simple cycles + GF(2) greedy)",
+            "text": "Same enumeration as C05 plus k=0: weight <= (2k-1) x reference optimum in exact arithmetic, equal sorted weight vectors for k=1, "
+                    "std::runtime_error and no output for k=0; an output that is no basis at all is also a C06 failure.",
+            "note": _EXACT_NOTE},
+    "C15": {"level": "exploration", "design_ref": "DESIGN.md section 3, C15",
+            "technique": "bounded exhaustive input-space enumeration with a white-box oracle on the private spanner state",
+            "text": "For every graph x weighting x k the algorithm object is constructed and its private spanner, edge translation map and dropped-edge list "
+                    "are checked: partition of E, weights copied, stretch <= 2k-1 through lighter retained edges (BFS), girth > 2k.",
+            "note": _EXACT_NOTE + "; private members read with -fno-access-control"},
 }
 for k in CLAIMED:
     ENGINES[0]["serves_properties"].append(k)
